@@ -31,6 +31,119 @@ if _SOLVER_THREADS > 0:
     _mp.cpu_count = lambda: _SOLVER_THREADS
 
 
+# --------------------------------------------------------------------------
+# wall-clock alarm that also works inside a solver
+# --------------------------------------------------------------------------
+# A Python exception raised by the SIGALRM handler while Gurobi runs one of the repository's callbacks is swallowed by the
+# callback stub ("Exception ignored in gurobipy._core.callbackstub") and the solve goes on -- observed on a thorough shard:
+# one ILP solve ran for hours and gigabytes.  The handler therefore also sets ABORT; the wrapped callback of the planners
+# then asks the model to terminate, and the wrapped schedule() raises SolverAborted from ordinary Python code once the
+# solver has returned.  Tooling-inconclusive, never a verdict.
+ABORT = {"flag": False, "terminated": 0}
+
+
+class SolverAborted(BaseException):
+    """a solver call was cut short by the harness' wall-clock alarm"""
+
+
+_GUARDED = []
+
+
+def install_solver_guard():
+    if _GUARDED:
+        return
+    _GUARDED.append(True)
+    import schedulers.ilp_scheduler as ilp
+    import schedulers.tetrisched_gurobi_scheduler as tg
+    for cls in (ilp.ILPScheduler, tg.TetriSchedGurobiScheduler):
+        def make(cls):
+            orig_cb = cls._termination_check_callback
+            orig_schedule = cls.schedule
+
+            def cb(self, sim_time, optimizer, where, *a, **k):
+                if ABORT["flag"]:
+                    ABORT["terminated"] += 1
+                    optimizer.terminate()
+                    return None
+                return orig_cb(self, sim_time, optimizer, where, *a, **k)
+
+            def schedule(self, *a, **k):
+                try:
+                    return orig_schedule(self, *a, **k)
+                finally:
+                    if ABORT["flag"]:
+                        ABORT["flag"] = False
+                        raise SolverAborted("solver call cut short by the wall-clock alarm")
+            schedule.__wrapped__ = orig_schedule
+            cls._termination_check_callback = cb
+            cls.schedule = schedule
+        make(cls)
+
+
+def alarm_fired(rearm_s=30):
+    """to be called by a SIGALRM handler before it raises: arms the solver guard and a follow-up alarm"""
+    import signal
+    ABORT["flag"] = True
+    signal.alarm(rearm_s)
+
+
+def alarm_cleared():
+    ABORT["flag"] = False
+
+
+class call_budget:
+    """`with call_budget(20) as b: policy.schedule(...)` -- after `seconds` a timer thread arms the solver guard: the next
+    solver callback ends the solve and the wrapped schedule() raises SolverAborted.  No signals (usable inside a run that has
+    its own alarm); only Gurobi-backed planners are cut short, anything else simply runs on."""
+
+    def __init__(self, seconds):
+        self.seconds = seconds
+        self.fired = False
+
+    def _fire(self):
+        self.fired = True
+        ABORT["flag"] = True
+
+    def __enter__(self):
+        import threading
+        install_solver_guard()
+        self.timer = threading.Timer(self.seconds, self._fire)
+        self.timer.daemon = True
+        self.timer.start()
+        return self
+
+    def __exit__(self, etype, e, tb):
+        self.timer.cancel()
+        if self.fired:
+            ABORT["flag"] = False
+        return False
+
+
+class wall_guard:
+    """`with wall_guard(120): policy.schedule(...)` -- raises SolverAborted when the call does not return in time"""
+
+    def __init__(self, seconds):
+        self.seconds = seconds
+
+    def __enter__(self):
+        import signal
+        install_solver_guard()
+
+        def handler(signum, frame):
+            alarm_fired()
+            raise SolverAborted("wall-clock alarm")
+        self.old = signal.signal(signal.SIGALRM, handler)
+        signal.alarm(self.seconds)
+        return self
+
+    def __exit__(self, *exc):
+        import signal
+        signal.alarm(0)
+        signal.signal(signal.SIGALRM, self.old)
+        alarm_cleared()
+        return False
+
+
 # the documented priority of simultaneous events (simulator.py, EventType): events that
 # free resources first.  Written down here by name so that the monitors do not follow a
 # change of the enum values.
